@@ -108,7 +108,7 @@ func pattern(n int, salt byte) []byte {
 }
 
 func runC13(c *vk.Ctx) {
-	c.Rule("boundary grid: item sizes {0,1,4095,4096,4097,3 buffers,64KiB+1} x chunkings x pre-existing file {absent, shorter, equal length, longer} x faults {none, item writer fails after k bytes, cancellation after k bytes, os write fails after a partial write, os sync fails, os close fails} with k over a boundary set x both item kinds, plus real segment and snapshot items; " +
+	c.Rule("boundary grid: item sizes {0,1,4095,4096,4097,3 buffers,64KiB+1} x chunkings x pre-existing file {absent, shorter, equal length, longer} x faults {none, item writer fails after k bytes, cancellation after k bytes, cancellation already in force when Persist is entered (item writer honouring / ignoring it), os write fails after a partial write, os sync fails, os close fails} with k over a boundary set x both item kinds, plus real segment and snapshot items; " +
 		"oracle: after success the file holds exactly the written bytes and the os-level log (overlay hooks) shows a successful Sync on that file after its last Write/Truncate and before Persist returned; after failure or cancellation nothing is left under the item's name. distinct non-trivial = distinct (kind, size, pre-state, fault, placement) cases that executed")
 	c.Assume("os.File operations are observed through a go build -overlay copy of os/file.go and os/file_posix.go (no change to bluge); a returned Sync means durable content",
 		"directory entries are durable at operation completion (bluge never syncs the directory)")
@@ -189,6 +189,9 @@ func runC13(c *vk.Ctx) {
 		if it, ok := item.(*c13Item); ok && cs.Fault == "cancel" {
 			it.closeNow = func() { close(closeCh) }
 		}
+		if cs.Fault == "cancel-before" || cs.Fault == "cancel-before-ignored" {
+			close(closeCh) // the writer is already closing when Persist is entered
+		}
 		err := fsd.Persist(cs.Kind, id, item, closeCh)
 		mu.Lock()
 		evs := append([]osEvent(nil), events...)
@@ -210,6 +213,11 @@ func runC13(c *vk.Ctx) {
 		expectFail := cs.Fault != "none"
 		if cs.Fault == "item-fail" && cs.FaultAt > len(want) {
 			expectFail = false
+		}
+		if cs.Fault == "cancel-before-ignored" {
+			// the item writer does not look at the channel: success (exact, flushed) and a reported
+			// cancellation (nothing left) are both what the property allows
+			expectFail = err != nil
 		}
 		if expectFail && err == nil {
 			c.Violate("persist-reports-success-despite-fault:"+cs.Fault, fmt.Sprintf("%+v: Persist returned nil although the %s fault fired", *cs, cs.Fault), cs)
@@ -295,6 +303,9 @@ func runC13(c *vk.Ctx) {
 				}
 				run(&c13Case{Kind: kind, Size: size, Chunk: 4096, Pre: pre, Fault: "os-sync"}, &c13Item{data: data, chunk: 4096, failAfter: -1, cancelAt: -1}, data)
 				run(&c13Case{Kind: kind, Size: size, Chunk: 4096, Pre: pre, Fault: "os-close"}, &c13Item{data: data, chunk: 4096, failAfter: -1, cancelAt: -1}, data)
+			// cancellation that is already in force when Persist is entered (Writer.Close racing the merger / persister)
+			run(&c13Case{Kind: kind, Size: size, Chunk: 4096, Pre: pre, Fault: "cancel-before"}, &c13Item{data: data, chunk: 4096, failAfter: -1, cancelAt: 0}, data)
+			run(&c13Case{Kind: kind, Size: size, Chunk: 4096, Pre: pre, Fault: "cancel-before-ignored"}, &c13Item{data: data, chunk: 4096, failAfter: -1, cancelAt: -1}, data)
 			}
 		}
 	}
